@@ -13,15 +13,18 @@ git -C "$WT" checkout -q -- . || exit 2
 git -C "$WT" apply "$M/patch.diff" || { say "PATCH DOES NOT APPLY to worktree"; exit 2; }
 say "== suite with mutant"
 ( cd "$WT" && cargo test --workspace --no-fail-fast --offline 2>&1 | grep -E '^test result|FAILED|^error' ) | tee -a "$OUT"
+# demos get a private target directory: two demos often name their packages alike (gen, check, demo)
+DEMO_TARGET=/tmp/confirm-demo-target-$$
 if [ -x "$M/demo/run.sh" ]; then
   say "== demo with mutant (expect non-zero)"
-  ( ZEEP_ROOT="$WT" "$M/demo/run.sh" >"$M/demo_mut.log" 2>&1; echo "demo exit=$?" ) | tee -a "$OUT"
+  ( CARGO_TARGET_DIR=$DEMO_TARGET ZEEP_ROOT="$WT" "$M/demo/run.sh" >"$M/demo_mut.log" 2>&1; echo "demo exit=$?" ) | tee -a "$OUT"
 fi
 git -C "$WT" checkout -q -- .
 if [ -x "$M/demo/run.sh" ]; then
   say "== demo without mutant (expect 0)"
-  ( ZEEP_ROOT="$WT" "$M/demo/run.sh" >"$M/demo_clean.log" 2>&1; echo "demo exit=$?" ) | tee -a "$OUT"
+  ( CARGO_TARGET_DIR=$DEMO_TARGET ZEEP_ROOT="$WT" "$M/demo/run.sh" >"$M/demo_clean.log" 2>&1; echo "demo exit=$?" ) | tee -a "$OUT"
 fi
+rm -rf $DEMO_TARGET
 unset CARGO_TARGET_DIR
 cd /verif
 if ! git -C /repo diff --quiet; then say "/repo is dirty, refusing"; exit 2; fi
